@@ -246,6 +246,21 @@ func dump(sb *strings.Builder, v reflect.Value, depth int) {
 			sb.WriteString("nilslice")
 			return
 		}
+		if dumpCap && v.Cap() > v.Len() {
+			full := v.Slice(0, v.Cap())
+			fmt.Fprintf(sb, "cap%d/", v.Cap())
+			n := v.Len()
+			if full.Type().Elem().Kind() == reflect.Uint8 {
+				for i := n; i < full.Len(); i++ {
+					fmt.Fprintf(sb, "%02x", full.Index(i).Uint())
+				}
+			} else {
+				for i := n; i < full.Len(); i++ {
+					dump(sb, full.Index(i), depth+1)
+				}
+			}
+			sb.WriteString("/")
+		}
 		if v.Type().Elem().Kind() == reflect.Uint8 {
 			fmt.Fprintf(sb, "b%d:", v.Len())
 			for i := 0; i < v.Len(); i++ {
@@ -368,3 +383,68 @@ func DestSSRC(p rtcp.Packet) []uint32 {
 	}
 	return out
 }
+
+// PadCapacity gives every slice reachable from v spare capacity filled with a
+// sentinel pattern (elements beyond len), so that a write past the length of a
+// caller-owned slice becomes observable through DumpCap.
+func PadCapacity(v interface{}, extra int) {
+	padCap(reflect.ValueOf(v), extra)
+}
+
+func padCap(v reflect.Value, extra int) {
+	switch v.Kind() {
+	case reflect.Ptr, reflect.Interface:
+		if !v.IsNil() {
+			padCap(v.Elem(), extra)
+		}
+	case reflect.Struct:
+		for i := 0; i < v.NumField(); i++ {
+			f := v.Field(i)
+			if f.CanSet() {
+				padCap(f, extra)
+			}
+		}
+	case reflect.Slice:
+		if v.IsNil() || !v.CanSet() {
+			return
+		}
+		n := v.Len()
+		ns := reflect.MakeSlice(v.Type(), n+extra, n+extra)
+		reflect.Copy(ns, v)
+		for i := n; i < n+extra; i++ {
+			fillSentinel(ns.Index(i))
+		}
+		v.Set(ns.Slice(0, n))
+		for i := 0; i < n; i++ {
+			padCap(v.Index(i), extra)
+		}
+	}
+}
+
+func fillSentinel(v reflect.Value) {
+	switch v.Kind() {
+	case reflect.Uint8, reflect.Uint16, reflect.Uint32, reflect.Uint64, reflect.Uint:
+		v.SetUint(0xEEEEEEEEEEEEEEEE & (1<<uint(v.Type().Bits()) - 1))
+	case reflect.Int8, reflect.Int16, reflect.Int32, reflect.Int64, reflect.Int:
+		v.SetInt(0x6E)
+	case reflect.String:
+		v.SetString("\xee")
+	case reflect.Struct:
+		for i := 0; i < v.NumField(); i++ {
+			if v.Field(i).CanSet() {
+				fillSentinel(v.Field(i))
+			}
+		}
+	}
+}
+
+// DumpCap is Dump that also renders the spare capacity of every slice.
+func DumpCap(v interface{}) string {
+	var sb strings.Builder
+	dumpCap = true
+	dump(&sb, reflect.ValueOf(v), 0)
+	dumpCap = false
+	return sb.String()
+}
+
+var dumpCap bool
